@@ -2991,4 +2991,230 @@ example : sig (refreshFetched csr [pr 1 "dc1" 0] [("ks", some ⟨"ks", true, [],
 
 end Resolve
 
+/-! ### histories on the cluster state with its keyspaces: what a refresh keeps -/
+
+section KHistory
+open ScyllaVerif.TabletsRefresh
+
+/-- a tablet that is resolved, has no replica on a removed host and no replica whose `Node` was re-created is
+left exactly as it is -/
+theorem maintTablet_untouched (rm : List Nat) (ns rc : List (Nat × Node)) (t : Tablet) (hres : t.failed = none)
+    (hrm : touchesRemoved rm t = false)
+    (hrc : ∀ p ∈ t.replicas.all, ∀ n, alGet p.1.hostId rc = some n → n = p.1) :
+    maintTablet rm ns rc t = some t := by
+  simp [maintTablet, reResolve, hres, hrm, updateStale_eq_self rc t hrc]
+
+private theorem flagsHonest_learnBatch (cs : CState) (h : FlagsHonest cs.info) (batch : List RawItem) :
+    FlagsHonest (learnBatch cs batch).1.info := by
+  have key : ∀ (batch : List RawItem) (inf : Info) (ok : Bool), FlagsHonest inf →
+      FlagsHonest (batch.foldl (learnItem (translator cs.known)) (inf, ok)).1 := by
+    intro batch
+    induction batch with
+    | nil => intro inf ok hi; exact hi
+    | cons it batch ih =>
+      intro inf ok hi
+      simp only [List.foldl_cons]
+      exact ih _ _ (learn_keeps_flags_honest hi it.1 _)
+  exact key batch cs.info true h
+
+private theorem stateOk_learnBatch (cs : CState) (h : StateOk cs) (batch : List RawItem) :
+    StateOk (learnBatch cs batch).1 := by
+  rw [learn_batch_eq_foldl]
+  have key : ∀ (batch : List RawItem) (cs : CState), StateOk cs →
+      StateOk (batch.foldl (fun cs it => (learn cs it.1 it.2.1 it.2.2.1 it.2.2.2).1) cs) := by
+    intro batch
+    induction batch with
+    | nil => intro cs h; exact h
+    | cons it batch ih => intro cs h; exact ih _ (stateOk_learn cs h it.1 _ _ _)
+  exact key batch cs h
+
+/-- the state invariants hold along every history of batches, refreshes (with failed fetches) and topology-only
+refreshes, with the keyspaces threaded by the model's own step -/
+theorem krun_ok (ops : List KOp) : StateOk (krun ops).cs ∧ FlagsHonest (krun ops).cs.info := by
+  have key : ∀ (ops : List KOp) (st : KState), StateOk st.cs ∧ FlagsHonest st.cs.info →
+      StateOk (ops.foldl kstep st).cs ∧ FlagsHonest (ops.foldl kstep st).cs.info := by
+    intro ops
+    induction ops with
+    | nil => intro st h; exact h
+    | cons op ops ih =>
+      intro st h
+      simp only [List.foldl_cons]
+      apply ih
+      cases op with
+      | batch items => exact ⟨stateOk_learnBatch st.cs h.1 items, flagsHonest_learnBatch st.cs h.2 items⟩
+      | refresh peers fetched =>
+        exact ⟨stateOk_refresh st.cs h.1 peers _, (refresh_resolves_all h.2 _ _ _ _).2⟩
+      | topology peers =>
+        exact ⟨stateOk_refresh st.cs h.1 peers _, (refresh_resolves_all h.2 _ _ _ _).2⟩
+  exact key ops KState.init ⟨stateOk_init, flags_honest_empty⟩
+
+/-- **What a refresh does to one table, exactly.**  `kss` = the keyspaces the refresh runs with (a map by name),
+`k` one of them, tablet-based, `name` one of its tables or views: after the refresh the table's tablets are the old
+ones passed through the per-tablet maintenance (`maintTablet`: re-resolved or dropped if a replica was unknown,
+dropped if a replica's host left, re-created `Node` objects swapped in) — nothing else is lost or added, whether the
+gate of `perform_maintenance` was open or closed. -/
+theorem refresh_table_tablets (cs : CState) (hf : FlagsHonest cs.info) (peers : List Peer) (kss : List KsMeta)
+    (hnd : (kss.map (·.name)).Nodup) (k : KsMeta) (hk : k ∈ kss) (htb : k.tabletBased = true) (name : String)
+    (hname : (k.tables.contains name || k.views.contains name) = true) :
+    ∃ tbl', alGet (k.name, name) (refreshKs cs peers kss).info.tables = some tbl' ∧
+      tbl'.tablets = ((alGet (k.name, name) cs.info.tables).getD Table.empty).tablets.filterMap
+        (maintTablet (removedNodes cs.known (newTopology cs.known cs.gen peers).1)
+          (nodesOf (newTopology cs.known cs.gen peers).1) (recreatedNodes cs.known (newTopology cs.known cs.gen peers).1)) := by
+  have hnd' : ((kss.map KsMeta.entry).map (·.1)).Nodup := by
+    simpa [List.map_map, Function.comp_def, KsMeta.entry] using hnd
+  have hget : alGet k.name (kss.map KsMeta.entry) = some (k.tabletBased, k.tables ++ k.views) := by
+    clear hnd'
+    induction kss with
+    | nil => cases hk
+    | cons x kss ih =>
+      simp only [List.map_cons, List.nodup_cons] at hnd
+      rcases List.mem_cons.mp hk with rfl | hm
+      · simp [alGet, KsMeta.entry]
+      · have hne : ¬ x.name = k.name := by
+          intro e
+          apply hnd.1
+          rw [e]
+          exact List.mem_map.mpr ⟨k, hm, rfl⟩
+        simp only [List.map_cons, alGet, KsMeta.entry, hne, if_false]
+        exact ih hnd.2 hm
+  have hkept : keptBy (kss.map KsMeta.entry) (k.name, name) = true := by
+    have hor : name ∈ k.tables ∨ name ∈ k.views := by simpa using hname
+    simp [keptBy, hget, htb, hor]
+  have hcur : FlagInv ((alGet (k.name, name) cs.info.tables).getD Table.empty) ∧
+      (cs.info.hasUnknown = false → AllResolved ((alGet (k.name, name) cs.info.tables).getD Table.empty)) := by
+    cases hg : alGet (k.name, name) cs.info.tables with
+    | none => exact ⟨flagInv_empty, fun _ t ht => by simp [Table.empty] at ht⟩
+    | some c => exact ⟨hf.tables _ (alGet_mem _ _ _ hg), fun hu => hf.whole hu _ (alGet_mem _ _ _ hg)⟩
+  show ∃ tbl', alGet (k.name, name) (cs.info.maintenance (kss.map KsMeta.entry) _ _ _).tables = some tbl' ∧ _
+  rw [alGet_maintenance _ _ hnd', hkept]
+  simp only [if_true]
+  refine ⟨_, rfl, ?_⟩
+  split
+  · exact (maintenance_eq_filterMap _ hcur.1 _ _ _).1
+  · rename_i hgate
+    simp only [Bool.or_eq_true, Bool.not_eq_true', not_or, Bool.not_eq_false] at hgate
+    have hr : removedNodes cs.known (newTopology cs.known cs.gen peers).1 = [] :=
+      List.isEmpty_iff.mp (by simpa using hgate.1.1)
+    have hc : recreatedNodes cs.known (newTopology cs.known cs.gen peers).1 = [] :=
+      List.isEmpty_iff.mp (by simpa using hgate.1.2)
+    have hu : cs.info.hasUnknown = false := by simpa using hgate.2
+    rw [hr, hc]
+    have h1 := table_pass_noop _ (hcur.2 hu) (nodesOf (newTopology cs.known cs.gen peers).1)
+    rw [(maintenance_eq_filterMap _ hcur.1 [] _ []).1] at h1
+    exact h1.symm
+
+/-- **A refresh whose fetch of a keyspace FAILED, an older version of it being held**: every table and view of the
+old version keeps its tablets, each passed through the per-tablet maintenance only (a resolved tablet without a
+removed / re-created replica is left exactly as it is: `maintTablet_untouched`) — the tablet map restricted to that
+keyspace is unchanged except for what the topology change requires. -/
+theorem refresh_failed_fetch_keeps_tablets (st : KState) (hf : FlagsHonest st.cs.info) (peers : List Peer)
+    (fetched : List (String × Option KsMeta)) (hw : WfFetched fetched) (hold : (st.kss.map (·.name)).Nodup)
+    (n : String) (hfail : (n, none) ∈ fetched) (k : KsMeta) (hk : k ∈ st.kss) (hn : k.name = n)
+    (htb : k.tabletBased = true) (name : String) (hname : (k.tables.contains name || k.views.contains name) = true) :
+    k ∈ (kstep st (.refresh peers fetched)).kss ∧
+    ∃ tbl', alGet (n, name) (kstep st (.refresh peers fetched)).cs.info.tables = some tbl' ∧
+      tbl'.tablets = ((alGet (n, name) st.cs.info.tables).getD Table.empty).tablets.filterMap
+        (maintTablet (removedNodes st.cs.known (newTopology st.cs.known st.cs.gen peers).1)
+          (nodesOf (newTopology st.cs.known st.cs.gen peers).1)
+          (recreatedNodes st.cs.known (newTopology st.cs.known st.cs.gen peers).1)) := by
+  have hmem := refresh_fetch_failed_old fetched st.kss hold n k hfail hk hn
+  refine ⟨hmem, ?_⟩
+  have := refresh_table_tablets st.cs hf peers _ (resolve_nodup fetched hw st.kss) k hmem htb name hname
+  rw [hn] at this
+  exact this
+
+/-- **A refresh whose fetch of a keyspace SUCCEEDED**: exactly the tables and views the fetched keyspace still has,
+if it is tablet-based, are in the tablet map afterwards — with their old tablets passed through the per-tablet
+maintenance; every other table of that keyspace is gone. -/
+theorem refresh_ok_fetch_keeps_exactly (st : KState) (hf : FlagsHonest st.cs.info) (peers : List Peer)
+    (fetched : List (String × Option KsMeta)) (hw : WfFetched fetched) (n : String) (k : KsMeta)
+    (hok : (n, some k) ∈ fetched) (name : String) :
+    (k.tabletBased && (k.tables.contains name || k.views.contains name)) = true →
+      ∃ tbl', alGet (n, name) (kstep st (.refresh peers fetched)).cs.info.tables = some tbl' ∧
+        tbl'.tablets = ((alGet (n, name) st.cs.info.tables).getD Table.empty).tablets.filterMap
+          (maintTablet (removedNodes st.cs.known (newTopology st.cs.known st.cs.gen peers).1)
+            (nodesOf (newTopology st.cs.known st.cs.gen peers).1)
+            (recreatedNodes st.cs.known (newTopology st.cs.known st.cs.gen peers).1)) := by
+  intro hcond
+  have hmem := refresh_fetch_ok fetched st.kss n k hok
+  have hn : k.name = n := hw.2 _ hok k rfl
+  simp only [Bool.and_eq_true] at hcond
+  have := refresh_table_tablets st.cs hf peers _ (resolve_nodup fetched hw st.kss) k hmem hcond.1 name hcond.2
+  rw [hn] at this
+  exact this
+
+theorem refresh_ok_fetch_drops_others (st : KState) (peers : List Peer)
+    (fetched : List (String × Option KsMeta)) (hw : WfFetched fetched) (n : String) (k : KsMeta)
+    (hok : (n, some k) ∈ fetched) (name : String)
+    (hcond : (k.tabletBased && (k.tables.contains name || k.views.contains name)) = false) :
+    alGet (n, name) (kstep st (.refresh peers fetched)).cs.info.tables = none := by
+  have hmem := refresh_fetch_ok fetched st.kss n k hok
+  have hn : k.name = n := hw.2 _ hok k rfl
+  have := refreshFetched_entry_iff st.cs peers fetched hw st.kss k hmem name
+  rw [hcond, hn] at this
+  cases hg : alGet (n, name) (refreshFetched st.cs peers fetched st.kss).info.tables with
+  | none => exact hg
+  | some x => rw [hg] at this; cases this
+
+/-- **Observation (schema fetching disabled / keyspace not among `keyspaces_to_fetch`)**: a refresh that comes with
+no keyspace at all — `SchemaMetadataFetchMode::Disabled` returns an empty map (`metadata/fetching.rs:686`) — empties the
+tablet map: every learnt tablet of every table is discarded at every such refresh (lookups are then answered by
+nothing, i.e. the driver falls back to the token ring until the tablets are learnt again). -/
+theorem refresh_without_schema_drops_all (st : KState) (peers : List Peer) :
+    (kstep st (.refresh peers [])).cs.info.tables = [] := by
+  show (st.cs.info.maintenance [] _ _ _).tables = []
+  rw [maintenance_unfold]
+  simp [keptBy, alGet]
+  split <;> simp
+
+-- non-vacuity: two keyspaces, the fetch of one fails; its tablets stay while the other keyspace follows its new schema
+private def kA : KsMeta := ⟨"ka", true, ["t"], []⟩
+private def kB : KsMeta := ⟨"kb", true, ["t", "u"], []⟩
+private def kst : KState := krun [.refresh [pr 1 "dc1" 0, pr 2 "dc1" 1] [("ka", some kA), ("kb", some kB)],
+  .batch [(("ka", "t"), 0, 5, [(1, 0)]), (("kb", "t"), 0, 5, [(2, 0)]), (("kb", "u"), 0, 5, [(1, 1)])]]
+private def kst' : KState :=
+  kstep kst (.refresh [pr 1 "dc1" 0, pr 2 "dc1" 1] [("ka", none), ("kb", some ⟨"kb", true, ["u"], []⟩)])
+example : sig kst'.cs = [[(0, 5, [(1, 0)])], [(0, 5, [(1, 1)])]] := by decide
+example : kst'.kss.map (·.name) = ["ka", "kb"] := by decide
+example : sig (kstep kst (.refresh [pr 1 "dc1" 0, pr 2 "dc1" 1] [])).cs = [] := by decide
+
+/-! the connection's learning glue -/
+
+/-- **What one response teaches**: at most one tablet; it is filed under the table of the prepared STATEMENT
+(never under anything read from the response), its range is a non-empty range inside `(i64::MIN, i64::MAX]`, and
+it is exactly what `from_custom_payload` made of the cell. -/
+theorem tabletFromResponse_some (table : Option (String × String)) (sender : Bool) (cell : Option (List UInt8))
+    (it : RawItem) (w : Bool) (h : tabletFromResponse table sender cell = (some it, w)) :
+    table = some it.1 ∧ sender = true ∧ w = false ∧
+      (∃ bs, cell = some bs ∧ parsePayload bs = .ok (it.2.1, it.2.2.1, it.2.2.2)) ∧
+      i64Min < it.2.1 ∧ it.2.1 ≤ it.2.2.1 ∧ it.2.2.1 ≤ i64Max := by
+  unfold tabletFromResponse at h
+  split at h
+  · rename_i spec bs
+    cases hp : parsePayload bs with
+    | error e => rw [hp] at h; simp at h
+    | ok v =>
+      obtain ⟨f, l, r⟩ := v
+      rw [hp] at h
+      simp only [Prod.mk.injEq, Option.some.injEq] at h
+      obtain ⟨rfl, rfl⟩ := h
+      have := payload_bytes_valid bs f l r hp
+      exact ⟨rfl, rfl, rfl, ⟨bs, rfl, hp⟩, this⟩
+  · simp at h
+
+/-- a malformed payload teaches nothing and only logs a warning; without a table, a channel or a payload
+nothing happens at all -/
+theorem tabletFromResponse_malformed (spec : String × String) (bs : List UInt8) (e : PayloadErr)
+    (h : parsePayload bs = .error e) : tabletFromResponse (some spec) true (some bs) = (none, true) := by
+  simp [tabletFromResponse, h]
+
+theorem tabletFromResponse_nothing (table : Option (String × String)) (sender : Bool) (cell : Option (List UInt8))
+    (h : table = none ∨ sender = false ∨ cell = none) : tabletFromResponse table sender cell = (none, false) := by
+  unfold tabletFromResponse
+  split
+  · rcases h with h | h | h <;> simp at h
+  · rfl
+
+end KHistory
+
 end ScyllaVerif.Props.C15
